@@ -1,6 +1,7 @@
 package scan
 
 import (
+	"runtime/debug"
 	"context"
 	"fmt"
 	"regexp"
@@ -47,6 +48,11 @@ type Config struct {
 	// called by the simulator when seam event k is recorded.
 	CancelAt int  `json:"cancel_at"`
 	Bubble   bool `json:"bubble,omitempty"` // run inside a synctest bubble (needed for latency)
+	// Plans, when non-empty, restricts a fault/cancel-enumerating check to exactly these plans
+	// (set in replay files).
+	Plans [][]Fault `json:"plans,omitempty"`
+	Cancels []int   `json:"cancels,omitempty"`
+	stepCap int
 }
 
 func (c *Config) Clone() *Config {
@@ -80,6 +86,7 @@ type Obs struct {
 	StCalls    map[string]int
 	OpenLeak   int
 	Panic      string // non-empty if the engine panicked (value + site)
+	PanicStack string
 	StepCap    bool
 	SimTime    time.Duration
 	RawPkgs    []PkgObs
@@ -143,6 +150,9 @@ func execute(cfg *Config) (obs *Obs) {
 		nodes += r.Tree.Count()
 	}
 	limit := 4000 + 600*nodes*(len(cfg.Extractors)+1)*(len(cfg.PathsToExtract)+1)
+	if cfg.stepCap > 0 {
+		limit = cfg.stepCap
+	}
 	rec := NewRecorder(limit)
 	probe := &Probe{Rec: rec, FSLabel: map[scalibrfs.FS]string{}, DetSeen: map[string][]string{}, DetCalls: map[string]int{}, StCalls: map[string]int{}}
 	obs = &Obs{}
@@ -220,6 +230,7 @@ func execute(cfg *Config) (obs *Obs) {
 					return
 				}
 				obs.Panic = fmt.Sprintf("%v", r)
+				obs.PanicStack = panicFrames(string(debug.Stack()))
 			}
 		}()
 		res = scalibr.New().Scan(ctx, sc)
@@ -280,4 +291,19 @@ func execute(cfg *Config) (obs *Obs) {
 		obs.Statuses = append(obs.Statuses, so)
 	}
 	return obs
+}
+
+// panicFrames keeps the library frames of a stack trace.
+func panicFrames(st string) string {
+	var keep []string
+	lines := strings.Split(st, "\n")
+	for i, l := range lines {
+		if strings.HasPrefix(l, "github.com/google/osv-scalibr") && i+1 < len(lines) {
+			keep = append(keep, strings.TrimSpace(l)+" @ "+strings.TrimSpace(lines[i+1]))
+		}
+		if len(keep) >= 6 {
+			break
+		}
+	}
+	return strings.Join(keep, " <- ")
 }
